@@ -182,6 +182,13 @@ def strata(V):
          [0, ["newtable", "T1"]], [0, ["iter_interleaved", "T1", 1, 1, "init_mass", False]],
          [0, ["iter_interleaved", "T1", 26, 3, "add_isotope", 44]], [0, ["iter", "T1", 26]],
          [0, ["iter_interleaved", "public", None, 5, "add_isotope", 300]]],
+        # the caller edits, in place, the lists it was handed
+        [[0, ["owned_result", "public", 26, "isotopes", "reverse"]], [0, ["iter", "public", 26]],
+         [0, ["owned_result", "public", 8, "isotopes", "clear"]], [0, ["iter", "public", 8]],
+         [0, ["owned_result", "public", 29, "ions", "clear"]], [0, ["owned_result", "public", 1, "isotopes", "append"]],
+         [0, ["newtable", "T1"]], [0, ["init", "T1", "mass", False]],
+         [0, ["owned_result", "T1", 28, "isotopes", "pop"]], [0, ["iter", "T1", 28]],
+         [0, ["owned_result", "T1", 28, "ions", "reverse"]], [0, ["sweep", "T1", [1, 8, 28], False]]],
         # a helper builds a table, returns atoms and drops the table object
         [[0, ["newtable", "T1"]], [0, ["init", "T1", "mass", False]],
          [0, ["drop_handle", "T1", [[26, 56, 2], [1, 2, 0], [8, 0, 0]]]],
@@ -307,6 +314,14 @@ def gen(seed, V, tier, index, bias=None):
             else:
                 arg = V.els[Z]["symbol"]
             evs.append([n, ["iter_interleaved", t, Z if rng.random() < 0.85 else None, rng.choice([0, 1, 2, 5]), what, arg]])
+        elif fam["iter"] and r < 0.75 and rng.random() < 0.25:
+            # the caller edits, in place, a list the table handed out; lookups and iteration must not follow
+            Z = rng.choice([z for z in V.Z if V.els[z]["isotopes"]])
+            evs.append([n, ["owned_result", t, Z, rng.choice(["isotopes", "ions"]), rng.choice(["reverse", "clear", "pop", "append"])]])
+            evs.append([n, ["iter", t, Z]])
+            if iso_ok and rng.random() < 0.5:
+                A = rng.choice(V.els[Z]["isotopes"])
+                evs.append([n, ["lookup", t, "isostr", "%d-%s" % (A, V.els[Z]["symbol"]), [Z, A, 0]]])
         elif fam["iter"] and r < 0.75:
             Z = None if rng.random() < 0.3 else rng.choice(V.Z)
             evs.append([n, ["iter", t, Z]])
